@@ -5,7 +5,7 @@ Driver for C01 (compact index round trip).  One case = the `src` lines of a feat
 `compact.BuildInMemory` + `compact.NewWorldFromData` produced for it:
 
   `src pt <id> [tags]` | `src pa <id> [tags] <n|v|c|i>` | `src ar <id> [tags] [polys]` | `src re <id> [tags] [members]`  => `-`
-  `build`                    => `ok` | `err` | `crash` | `hang`
+  `build`                    => `ok` | `err` | `crash` | `hang` (CPU runaway or blocked) | `inconclusive-timeout`
   `nss`                      => `[hex …]`            the namespace table of the header
   `strs`                     => `[hex …]`            the string table, in id order
   `blk <i> t=<t> nss=a,b,c,d bits=<b> tagbits=<k>` => `[id:tag:hex …]`   every entry of feature block i, in iteration order
@@ -232,6 +232,9 @@ def step (st : St) (op impl : String) : St × Verdict :=
     | none => (st, .bad)
   | ["reset"] => ({}, .ok)
   | ["build"] =>
+    -- the harness could not decide within its wall-clock limit whether the build terminates (the child was still
+    -- consuming CPU within its budget): counted in the harness histogram, no claim either way
+    if impl == "inconclusive-timeout" then (st, .ok) else
     let st := { st with implBuild := impl, known := hasFidTag st.fs }
     match build (defaultStrs st.fs) st.fs with
     | .ok _ =>
